@@ -40,6 +40,19 @@ def parseSendq (ws : List String) : Option (List SendEv) :=
       | none => none
     else none
 
+/-- write outcomes for `sendall`: `dt:N` entries add up to the time that passes inside the next write call -/
+def parseSendSteps : List String → Nat → Option (List SendStep)
+  | [], acc => some (if acc = 0 then [] else [⟨acc, .all⟩])
+  | w :: ws, acc =>
+    if w.startsWith "dt:" then
+      match (w.drop 3).toString.toNat? with
+      | some n => parseSendSteps ws (acc + n)
+      | none => none
+    else
+      match parseSendq [w] with
+      | some [e] => (parseSendSteps ws 0).map (⟨acc, e⟩ :: ·)
+      | _ => none
+
 def parseOpenq (ws : List String) : Option (List Int) :=
   ws.mapM fun w => if w = "ok" then some 0 else if w = "err" then some (-1) else none
 
@@ -148,6 +161,14 @@ def step (d : D) (line : String) : D × String :=
     match hexToBytes? h with
     | some b => (d, if checkSize b then "1" else "0")
     | none => bad
+  | "sendall" :: now :: tmo :: h :: evs =>
+    -- the loop of tr_send_all on a transport whose write calls take time (RtrModel.Rtr.sendAllT)
+    match now.toNat?, tmo.toInt?, hexToBytes? h, parseSendSteps evs 0 with
+    | some now, some tmo, some b, some q =>
+      if b.isEmpty || st.n.threaded then bad else
+      let r := sendAllT q now b tmo
+      (d, "\n".intercalate (r.lines ++ [s!"ret {r.rc} {r.now}", "end"]))
+    | _, _, _, _ => bad
   | ["show"] => (d, showSock st)
   | ["dump"] => (d, "\n".intercalate (dumpLines "D" st.t))
   | _ => bad
